@@ -3,9 +3,17 @@
 package authenticators
 
 import (
+	"bytes"
+	"encoding/json"
+	"errors"
+	"fmt"
+	"io"
 	"maps"
 	"slices"
 	"sort"
+	"strconv"
+	"strings"
+	"sync"
 )
 
 type Authenticator interface {
@@ -271,3 +279,87 @@ func (a *callbackGenAuth) viaClone() {
 
 var _ = []any{(*inplaceGenAuth).reverse, (*inplaceGenAuth).insert, (*inplaceGenAuth).del, (*inplaceGenAuth).compact, (*inplaceGenAuth).grow,
 	(*inplaceGenAuth).clip, (*inplaceGenAuth).sortFunc, (*inplaceGenAuth).deleteFunc, (*callbackGenAuth).viaClone}
+
+// ---- destination arguments of otherwise harmless library functions (audit 2026-10-02)
+type dstAuth struct {
+	m       map[string]string
+	buf     []byte
+	scratch []byte
+	out     bytes.Buffer
+	last    *myErr
+}
+
+type myErr struct{ code int }
+
+func (e *myErr) Error() string { return "my" }
+
+func (a *dstAuth) Execute() error { return json.Unmarshal([]byte(`{}`), &a.m) }
+func (a *dstAuth) WithConfig(map[string]any) (Authenticator, error) {
+	_, err := io.ReadFull(strings.NewReader("x"), a.buf)
+	return a, err
+}
+func (a *dstAuth) appendInt()              { _ = strconv.AppendInt(a.scratch[:0], 42, 10) }
+func (a *dstAuth) fprintf()                { fmt.Fprintf(&a.out, "%d", 1) }
+func (a *dstAuth) errorsAs(err error) bool { return errors.As(err, &a.last) }
+
+// the same functions with local destinations: no effect
+type dstLocalAuth struct {
+	raw []byte
+	s   []string
+}
+
+func (a *dstLocalAuth) Execute() error {
+	var m map[string]string
+	if err := json.Unmarshal(a.raw, &m); err != nil {
+		var me *myErr
+		if errors.As(err, &me) {
+			return me
+		}
+
+		return err
+	}
+
+	var out bytes.Buffer
+	fmt.Fprintf(&out, "%v", a.s)
+
+	buf := make([]byte, 4)
+	_, _ = io.ReadFull(bytes.NewReader(a.raw), buf)
+	_ = strconv.AppendInt(nil, int64(len(a.s)), 10)
+
+	return nil
+}
+
+func (a *dstLocalAuth) WithConfig(map[string]any) (Authenticator, error) { return a, nil }
+
+// ---- state behind a package-level pointer, a package-level sync.Map, a sync.Pool, a channel
+type memo struct {
+	m map[string]string
+	n int
+}
+
+var (
+	shared     = &memo{m: map[string]string{}}
+	sharedMap  sync.Map
+	sharedPool = sync.Pool{New: func() any { return map[string]string{} }}
+	settings   = &memo{m: map[string]string{"mode": "x"}}
+)
+
+type globalPtrAuth struct{ id string }
+
+func (a *globalPtrAuth) Execute() error                                   { shared.m[a.id] = "seen"; return nil }
+func (a *globalPtrAuth) WithConfig(map[string]any) (Authenticator, error) { shared.n++; return a, nil }
+func (a *globalPtrAuth) viaSyncMap()                                      { sharedMap.Store(a.id, 1) }
+func (a *globalPtrAuth) viaPool() {
+	m := sharedPool.Get().(map[string]string)
+	m[a.id] = "x"
+	sharedPool.Put(m)
+}
+func (a *globalPtrAuth) readOnly() string { return settings.m["mode"] + a.id }
+
+type chanAuth struct{ jobs chan string }
+
+func (a *chanAuth) Execute() error                                   { a.jobs <- "refresh"; return nil }
+func (a *chanAuth) WithConfig(map[string]any) (Authenticator, error) { return a, nil }
+
+var _ = []any{(*dstAuth).appendInt, (*dstAuth).fprintf, (*dstAuth).errorsAs, (*globalPtrAuth).viaSyncMap, (*globalPtrAuth).viaPool,
+	(*globalPtrAuth).readOnly}
